@@ -326,7 +326,10 @@ class WritableVersion(dns.zone.WritableVersion):
 
         If *rdataset* is an NS rdataset and *name* is not the origin or beneath
         an existing delegation, the ``DELEGATION`` flag is set on the node and
-        the ``GLUE`` flag is set on all nodes in *name*'s subtree.
+        the ``GLUE`` flag is set on all nodes in *name*'s subtree.  If storing
+        *rdataset* removes the NS rdataset of a delegation point (a CNAME replaces
+        all other data at a node), the delegation is removed as by
+        :py:meth:`delete_rdataset`.
 
         :param name: The owner name.
         :type name: :py:class:`dns.name.Name`
@@ -343,6 +346,15 @@ class WritableVersion(dns.zone.WritableVersion):
                 self.delegations.add(name)
                 self.update_glue_flag(name, True)
         node.replace_rdataset(rdataset)
+        if (
+            node.is_delegation()  # type: ignore
+            and node.get_rdataset(self.zone.rdclass, dns.rdatatype.NS) is None
+        ):
+            # Storing a CNAME (or its RRSIG) evicts the "other data" at the node,
+            # the NS rdataset included, so the node is no longer a delegation point.
+            node.flags &= ~NodeFlags.DELEGATION  # type: ignore
+            self.delegations.discard(name)
+            self.update_glue_flag(name, False)
 
     def delete_rdataset(
         self,
